@@ -169,7 +169,15 @@ class Program:
             if bool(a.dual) != bool(b.dual) and dict(a.chargemap) == dict(b.chargemap):
                 names += ["trace", "einsum_trace"]
                 if x.charge == R.identity(sym):
-                    names += ["eigh"]
+                    names += ["eigh", "hermitian_lazy"]
+                    try:
+                        from .dense import embed as _embed
+
+                        dx_ = _embed(x)
+                        if dx_.shape[0] == dx_.shape[1] and np.array_equal(dx_, dx_.conj().T):
+                            names += ["eigh_direct"] * 3
+                    except Exception:
+                        pass
                     if x.blocks and all(np.asarray(b_).shape[0] == np.asarray(b_).shape[1] for b_ in x.blocks.values()):
                         names += ["solve"]
         if len(x.blocks) == 1 and all(ix.size_total == 1 for ix in x.indices):
@@ -436,6 +444,13 @@ class Program:
         if name == "svd_truncated":
             kw = dict(cutoff=rng.choice([-1.0, 1e-3, 0.3, 5.0]), cutoff_mode=rng.randint(1, 6), max_bond=rng.choice([-1, 1, 2, 3]), absorb=rng.choice([None, -1, 0, 1, "left", "both", "right"]))
             return name, [x], (lambda a: sr.linalg.svd_truncated(a, **kw)), I(dtype="svd", kw=kw)
+        if name == "hermitian_lazy":
+            # a Hermitian matrix that (when fermionic) still carries pending signs
+            if ferm:
+                return name, [x], (lambda a: (a + a.dagger()).phase_transpose((1, 0))), I()
+            return name, [x], (lambda a: a + a.dagger()), I()
+        if name == "eigh_direct":
+            return name, [x], (lambda a: sr.linalg.eigh(a)), I(dtype="svd")
         if name == "eigh":
 
             def f(a):
